@@ -568,7 +568,7 @@ edition = "2021"
 
 [dependencies]
 leptos = {{ version = "0.7.7", features = ["ssr"] }}
-leptos_i18n = {{ path = "{repo}/leptos_i18n", default-features = false, features = ["ssr", "dynamic_load", "json_files", "cookie", "plurals", "icu_compiled_data"] }}
+leptos_i18n = {{ path = "{repo}/leptos_i18n", default-features = false, features = ["ssr", "dynamic_load", "json_files", "cookie", "plurals", "icu_compiled_data", "interpolate_display"] }}
 tokio = {{ version = "1", features = ["rt"] }}
 any_spawner = {{ version = "0.2", features = ["tokio"] }}
 
@@ -585,19 +585,74 @@ debug = 0
 """
 
 MAIN_RS = """// generated by /verif/checks/strings_common.py — do not edit
-#![allow(non_snake_case, unused_imports, dead_code)]
+#![allow(non_snake_case, unused_imports, dead_code, unused_variables)]
 use leptos::prelude::*;
 use leptos_i18n::context::{{CookieOptions, UseLocalesOptions}};
 use leptos_i18n::__private::fetch_translations::RegisterCtx;
+use leptos_i18n::I18nContext;
 use std::sync::{{Arc, Mutex}};
 
 leptos_i18n::load_locales!();
 use i18n::*;
 
+/// server side the futures of the `*_string!` / `*_display!` accessors are ready at once
+fn ready<F: std::future::Future>(fut: F) -> F::Output {{
+    let mut fut = std::pin::pin!(fut);
+    let mut cx = std::task::Context::from_waker(std::task::Waker::noop());
+    match fut.as_mut().poll(&mut cx) {{
+        std::task::Poll::Ready(v) => v,
+        std::task::Poll::Pending => panic!("translation future pending on the server"),
+    }}
+}}
+
+/// LAZY access: `td!` gives a closure, the unit's accessor runs when the HTML is rendered
 fn touch(i: usize) -> AnyView {{
     match i {{
 {arms}
         _ => ().into_any(),
+    }}
+}}
+
+/// LAZY access through the context (current locale): `t!`
+fn touch_ctx(i18n: I18nContext<Locale>, i: usize) -> AnyView {{
+    match i {{
+{arms_t}
+        _ => ().into_any(),
+    }}
+}}
+
+/// EAGER accesses: the accessor runs where the macro is evaluated (a component body)
+fn eager_td_string(i: usize) -> String {{
+    match i {{
+{arms_tds}
+        _ => String::new(),
+    }}
+}}
+fn eager_td_display(i: usize) -> String {{
+    match i {{
+{arms_tdd}
+        _ => String::new(),
+    }}
+}}
+fn eager_t_string(i18n: I18nContext<Locale>, i: usize) -> String {{
+    match i {{
+{arms_ts}
+        _ => String::new(),
+    }}
+}}
+fn eager_t_display(i18n: I18nContext<Locale>, i: usize) -> String {{
+    match i {{
+{arms_tsd}
+        _ => String::new(),
+    }}
+}}
+fn eager(i18n: I18nContext<Locale>, code: char, i: usize) -> usize {{
+    match code.to_ascii_lowercase() {{
+        'e' => eager_td_string(i).len(),
+        'd' => eager_td_display(i).len(),
+        'c' => eager_t_string(i18n, i).len(),
+        'p' => eager_t_display(i18n, i).len(),
+        _ => 0,
     }}
 }}
 
@@ -609,11 +664,54 @@ fn hex(s: &str) -> String {{
     o
 }}
 
-fn render(touches: Vec<usize>, outside: Vec<usize>) -> (String, String) {{
+#[derive(Clone, Default)]
+struct Req {{
+    lazy: Vec<usize>,            // `7`   td! in the view
+    lazy_ctx: Vec<usize>,        // `l7`  t!(i18n, ..) in the view
+    page: Vec<(char, usize)>,    // `e7` td_string!, `d7` td_display!, `c7` t_string!, `p7` t_display! in the page component's body
+    nested: Vec<(char, usize)>,  // `E7` `D7` `C7` `P7` the same in the body of a component nested in the page
+    outside: Vec<usize>,         // `o7`  td! rendered outside of any provider, before the page
+    wrap: usize,                 // `w0` provider, `w1` provider + I18nSubContextProvider, `w2` provider + provide_i18n_subcontext()
+}}
+
+#[component]
+fn Inner(acc: Vec<(char, usize)>) -> impl IntoView {{
+    let i18n = use_i18n();
+    let n: usize = acc.iter().map(|&(c, i)| eager(i18n, c, i)).sum();      // component body: EAGER
+    view! {{ <span data-n=n>"n"</span> }}
+}}
+
+#[component]
+fn Page(req: Req, reg: Arc<Mutex<Option<RegisterCtx<Locale>>>>) -> impl IntoView {{
+    let i18n = use_i18n();
+    let n: usize = req.page.iter().map(|&(c, i)| eager(i18n, c, i)).sum(); // component body: EAGER
+    let lazy = req.lazy.clone();
+    let lazy_ctx = req.lazy_ctx.clone();
+    view! {{
+        <div data-n=n>
+            {{move || {{
+                *reg.lock().unwrap() = use_context::<RegisterCtx<Locale>>();
+                lazy.iter().map(|&i| touch(i)).collect_view()
+            }}}}
+            {{move || lazy_ctx.iter().map(|&i| touch_ctx(i18n, i)).collect_view()}}
+            <Inner acc=req.nested.clone() />
+        </div>
+    }}
+}}
+
+#[component]
+#[allow(deprecated)]
+fn PlainSub(req: Req, reg: Arc<Mutex<Option<RegisterCtx<Locale>>>>) -> impl IntoView {{
+    // a sub-context made with the plain function instead of the component
+    let _ctx = leptos_i18n::context::provide_i18n_subcontext::<Locale>(None);
+    view! {{ <Page req=req reg=reg /> }}
+}}
+
+fn render(req: Req) -> (String, String) {{
     // accessors that run outside of any provider (no RegisterCtx in scope): nothing may be embedded for them
-    if !outside.is_empty() {{
+    if !req.outside.is_empty() {{
         let o = Owner::new();
-        let _ = o.with(|| outside.iter().map(|&i| touch(i)).collect_view().to_html());
+        let _ = o.with(|| req.outside.iter().map(|&i| touch(i)).collect_view().to_html());
     }}
     let slot: Arc<Mutex<Option<RegisterCtx<Locale>>>> = Arc::new(Mutex::new(None));
     let slot2 = slot.clone();
@@ -623,18 +721,54 @@ fn render(touches: Vec<usize>, outside: Vec<usize>) -> (String, String) {{
             .ssr_cookies_header_getter(|| None)
             .ssr_set_cookie(|_c| {{}});
         let lang = UseLocalesOptions::default().ssr_lang_header_getter(|| None);
-        view! {{
-            <I18nContextProvider cookie_options=cookie_options ssr_lang_header_getter=lang set_lang_attr_on_html=false set_dir_attr_on_html=false>
-                {{move || {{
-                    *slot2.lock().unwrap() = use_context::<RegisterCtx<Locale>>();
-                    touches.iter().map(|&i| touch(i)).collect_view()
-                }}}}
-            </I18nContextProvider>
+        match req.wrap {{
+            1 => view! {{
+                <I18nContextProvider cookie_options=cookie_options ssr_lang_header_getter=lang set_lang_attr_on_html=false set_dir_attr_on_html=false>
+                    <I18nSubContextProvider>
+                        <Page req=req reg=slot2 />
+                    </I18nSubContextProvider>
+                </I18nContextProvider>
+            }}
+            .to_html(),
+            2 => view! {{
+                <I18nContextProvider cookie_options=cookie_options ssr_lang_header_getter=lang set_lang_attr_on_html=false set_dir_attr_on_html=false>
+                    <PlainSub req=req reg=slot2 />
+                </I18nContextProvider>
+            }}
+            .to_html(),
+            _ => view! {{
+                <I18nContextProvider cookie_options=cookie_options ssr_lang_header_getter=lang set_lang_attr_on_html=false set_dir_attr_on_html=false>
+                    <Page req=req reg=slot2 />
+                </I18nContextProvider>
+            }}
+            .to_html(),
         }}
-        .to_html()
     }});
     let raw = slot.lock().unwrap().as_ref().map(|r| r.to_array()).unwrap_or_default();
     (html, raw)
+}}
+
+fn parse(line: &str) -> Req {{
+    let mut r = Req::default();
+    for tok in line.split(',').filter(|s| !s.is_empty()) {{
+        let c = tok.chars().next().unwrap();
+        if c.is_ascii_digit() {{
+            if let Ok(i) = tok.parse() {{
+                r.lazy.push(i);
+            }}
+            continue;
+        }}
+        let Ok(i) = tok[1..].parse::<usize>() else {{ continue }};
+        match c {{
+            'l' => r.lazy_ctx.push(i),
+            'o' => r.outside.push(i),
+            'w' => r.wrap = i,
+            'e' | 'd' | 'c' | 'p' => r.page.push((c, i)),
+            'E' | 'D' | 'C' | 'P' => r.nested.push((c, i)),
+            _ => {{}}
+        }}
+    }}
+    r
 }}
 
 fn main() {{
@@ -651,11 +785,8 @@ fn main() {{
                 Ok(0) | Err(_) => break,
                 Ok(_) => {{}}
             }}
-            let l = line.trim();
-            // `7` = accessor 7 runs inside the provider, `o7` = it runs outside of any provider before the page is rendered
-            let touches: Vec<usize> = l.split(',').filter(|s| !s.is_empty() && !s.starts_with('o')).filter_map(|s| s.parse().ok()).collect();
-            let outside: Vec<usize> = l.split(',').filter(|s| s.starts_with('o')).filter_map(|s| s[1..].parse().ok()).collect();
-            let r = std::panic::catch_unwind(std::panic::AssertUnwindSafe(|| render(touches, outside)));
+            let req = parse(line.trim());
+            let r = std::panic::catch_unwind(std::panic::AssertUnwindSafe(|| render(req)));
             match r {{
                 Ok((html, raw)) => println!("H {{}} {{}}", hex(&html), hex(&raw)),
                 Err(_) => println!("PANIC"),
@@ -722,12 +853,21 @@ def write_probe(proj, d, touch_list, name):
     if proj.inherits:
         i18n.append('inherits = { %s }' % ", ".join("%s = %s" % (json.dumps(k), json.dumps(v)) for k, v in proj.inherits.items()))
     put_file(os.path.join(d, "Cargo.toml"), CARGO_TOML.format(repo=REPO, i18n="\n".join(i18n), name=name))
-    arms = []
+    arms, arms_t, arms_tds, arms_tdd, arms_ts, arms_tsd = [], [], [], [], [], []
     for i, (ns, loc, path, args) in enumerate(touch_list):
         keys = ".".join(([ns] if ns else []) + path)
-        arms.append("        %d => td!(Locale::%s, %s%s).into_any()," % (i, ident(loc), keys, args))
+        L = ident(loc)
+        arms.append("        %d => td!(Locale::%s, %s%s).into_any()," % (i, L, keys, args))
+        arms_tds.append("        %d => ready(td_string!(Locale::%s, %s%s)).to_string()," % (i, L, keys, args))
+        arms_tdd.append("        %d => format!(\"{}\", ready(td_display!(Locale::%s, %s%s)))," % (i, L, keys, args))
+        if loc == proj.locales[0]:          # the context's locale in the probe is the default locale
+            arms_t.append("        %d => t!(i18n, %s%s).into_any()," % (i, keys, args))
+            arms_ts.append("        %d => ready(t_string!(i18n, %s%s)).to_string()," % (i, keys, args))
+            arms_tsd.append("        %d => format!(\"{}\", ready(t_display!(i18n, %s%s)))," % (i, keys, args))
     os.makedirs(os.path.join(d, "src"), exist_ok=True)
-    put_file(os.path.join(d, "src", "main.rs"), MAIN_RS.format(arms="\n".join(arms)))
+    put_file(os.path.join(d, "src", "main.rs"), MAIN_RS.format(
+        arms="\n".join(arms), arms_t="\n".join(arms_t), arms_tds="\n".join(arms_tds), arms_tdd="\n".join(arms_tdd),
+        arms_ts="\n".join(arms_ts), arms_tsd="\n".join(arms_tsd)))
     lock = os.path.join(d, "Cargo.lock")
     if not os.path.exists(lock):
         shutil.copy(os.path.join(core.HARNESS, "Cargo.lock"), lock)
@@ -775,6 +915,15 @@ def py_decode(body):
         return None
 
 
+
+
+PAGE_WRAPPER = re.compile(r'^<div data-n="\d+">(.*)<span data-n="\d+">n</span></div>(?:<!>)*$', re.S)
+
+
+def page_text(h):
+    """what the probe's page component rendered for the lazy accessors (its own wrapper elements removed)"""
+    m = PAGE_WRAPPER.match(h)
+    return m.group(1) if m else h
 
 
 def unescape_text(h):
